@@ -7,7 +7,7 @@ from facts import LOCAL_RE, AnchorMissing
 # ------------------------------------------------------------------------------------------
 # call graph
 
-VALUE_TRAITS = ("StarlarkValue", "AValue", "ValueLike", "Trace", "FreezeBranded", "Freeze", "TypeMatcher",
+VALUE_TRAITS = ("StarlarkValue", "AValue", "ValueLike", "Trace", "FreezeBranded", "Freeze", "TypeMatcher", "DictLike", "SetLike", "ListLike",
                 "TypeMatcherDyn", "TyCustomImpl", "TyCustomDyn")
 
 TRAMPOLINE_RE = re.compile(r"^starlark::values::layout::vtable::AValueDyn(Full)?::<'v>::(\w+)$")
@@ -654,3 +654,163 @@ class ValueBearing:
         r = any(s.ty(fd["ty"], a.crate, (), seen) for fd in a.fields)
         s.memo[a.qpath] = r
         return r
+
+
+# ------------------------------------------------------------------------------------------
+# registry of native functions / methods (#[starlark_module])
+
+class Native:
+    __slots__ = ("name", "kind", "builder", "outer", "impl", "speculative", "line")
+
+    def __repr__(s):
+        return "Native(%s %s spec=%s)" % (s.kind, s.name, s.speculative)
+
+
+def _chase_const(fn, operand, depth=8):
+    """follow use/ref chains from an operand to a constant text"""
+    l = locals_in(operand)
+    if not l:
+        return operand
+    l = l[0]
+    for _ in range(depth):
+        ds = [st for st in fn.stmts if st.lhs == l]
+        if not ds:
+            return None
+        st = ds[0]
+        if st.kind in ("use", "ref", "refmut") or st.kind.startswith("cast"):
+            t = st.ops[0]
+            if t.startswith("const"):
+                return t
+            nl = locals_in(t)
+            if not nl:
+                return t
+            l = nl[0]
+        else:
+            return st.kind + " " + st.text()
+    return None
+
+
+def natives(F):
+    """every GlobalsBuilder::set_function / MethodsBuilder::set_method registration with its resolved bodies"""
+    out = []
+    for f in F.fns.values():
+        regs = [c for c in f.calls if re.search(r"(GlobalsBuilder::set_function|MethodsBuilder::set_method|"
+                                                r"MethodsBuilder::set_attribute_fn|GlobalsBuilder::set_function_with_ty)$",
+                                                c.name)]
+        if not regs:
+            continue
+        comp = {}
+        for st in f.stmts:
+            if st.kind.endswith("NativeCallableComponents::NativeCallableComponents"):
+                comp[st.lhs] = st.ops[0].split(" | ")[0]
+        for c in regs:
+            n = Native()
+            n.builder = f
+            n.line = c.line
+            n.kind = "method" if "MethodsBuilder" in c.name else "function"
+            nm = _chase_const(f, c.args[1]) if len(c.args) > 1 else None
+            m = re.match(r'conststr "(.*)"$', nm or "")
+            n.name = m.group(1) if m else (nm or "?")
+            n.speculative = None
+            for a in c.args:
+                a0 = re.sub(r"^(move|copy) ", "", a)
+                if a0 in comp:
+                    n.speculative = "0x01" in comp[a0]
+            n.outer = None
+            for a in c.args[::-1]:
+                t = _chase_const(f, a) or ""
+                m = re.search(r"constfn .*? @(\S+)", t)
+                if m:
+                    n.outer = F.fns.get(m.group(1))
+                    break
+            n.impl = None
+            if n.outer is not None:
+                for oc in n.outer.calls:
+                    if oc.name.endswith("__starlark_invoke_impl") or "__starlark_invoke_impl" in oc.callee_uid():
+                        n.impl = F.fns.get(oc.callee_uid())
+            out.append(n)
+    return out
+
+
+_MUT_CELL_CALLS = re.compile(
+    r"(cell::Cell::<T>::(set|replace|take|swap|get_mut|as_ptr)|cell::RefCell::<T>::(borrow_mut|try_borrow_mut|get_mut|replace|as_ptr|replace_with)|"
+    r"cell::UnsafeCell::<T>::(get|get_mut|raw_get)|cell::OnceCell::<T>::(get_mut|take)|"
+    r"fast_cell::FastCell::<T>::(set|take|get_mut|borrow_mut)|std::mem::(replace|swap|take))$")
+
+
+def field_mut_access_of(F, fn, adt_path, base="_1", depth=3, _seen=None):
+    """fields of `adt_path` that the body accesses *mutably* through `base`: assignment into the field, a mutable
+    borrow / raw mut pointer of (a place inside) the field, or a shared borrow of the field handed to an
+    interior-mutability writer (Cell::set, RefCell::borrow_mut, ...); recursively through callees that receive the
+    whole object. Keys as in field_reads_of."""
+    if _seen is None:
+        _seen = set()
+    if (fn.uid, base) in _seen:
+        return set()
+    _seen.add((fn.uid, base))
+    out = set()
+    pat = re.compile(r"(?:as<(\w+)>\.)?\{" + re.escape(adt_path) + r"::(\w+)\}")
+
+    def keys(text):
+        ks = set()
+        for m in pat.finditer(text):
+            ks.add(m.group(2))
+            if m.group(1):
+                ks.add(m.group(1) + "." + m.group(2))
+        return ks
+
+    bodies = [fn] + F.closures_of(fn)
+    for g in bodies:
+        shared = {}  # local -> field keys it shares-borrows
+        for st in g.stmts:
+            if pat.search(st.lhs):
+                out |= keys(st.lhs)
+            if st.kind == "refmut" or st.kind.startswith("rawptr Mut"):
+                out |= keys(st.ops[0])
+            elif st.kind == "ref" or st.kind.startswith("rawptr"):
+                k = keys(st.ops[0])
+                if k:
+                    shared.setdefault(st.lhs, set()).update(k)
+        # propagate shared borrows through copies
+        changed = True
+        while changed:
+            changed = False
+            for st in g.stmts:
+                if st.kind == "use" and st.lhs not in shared:
+                    src = re.sub(r"^(move|copy) ", "", st.ops[0])
+                    if src in shared:
+                        shared[st.lhs] = set(shared[src])
+                        changed = True
+        for c in g.calls:
+            if c.indirect or not c.args:
+                continue
+            if _MUT_CELL_CALLS.search(c.name):
+                a0 = re.sub(r"^(move|copy) ", "", c.args[0])
+                if a0 in shared:
+                    out |= shared[a0]
+                out |= keys(c.args[0])
+    if depth > 0:
+        al = _aliases_of(fn, base)
+        for c in fn.calls:
+            if c.indirect:
+                continue
+            for i, a in enumerate(c.args):
+                a0 = re.sub(r"^(move|copy) ", "", a)
+                if a0 in al:
+                    callee = F.fns.get(c.callee_uid())
+                    if callee is not None:
+                        out |= field_mut_access_of(F, callee, adt_path, "_%d" % (i + 1), depth - 1, _seen)
+    return out
+
+
+def short_fn(qpath):
+    """readable, line-free key for a function: generic arguments removed, crate/module prefix trimmed"""
+    s = re.sub(r"::<[^<>]*(<[^<>]*>[^<>]*)*>", "", qpath)
+    m = re.match(r"^(\w+::)?<(.+?) as (.+?)>::(\w+)(.*)$", s)
+    if m:
+        ty = re.sub(r"<.*", "", m.group(2)).split("::")[-1]
+        tr = re.sub(r"<.*", "", m.group(3)).split("::")[-1]
+        return "%s as %s::%s%s" % (ty, tr, m.group(4), m.group(5))
+    s = re.sub(r"<impl [^>]*?(\w+)(<[^>]*>)?>", lambda m_: m_.group(1), s)
+    parts = s.split("::")
+    return "::".join(parts[-2:]) if len(parts) > 2 else s
